@@ -1,7 +1,10 @@
 // Package c16: boxes are painted in CSS stacking order.
 //
 // Bounded exhaustive enumeration of arrangements of 2–4 coloured boxes × per-box deviations
-// (position, float, display, z-index, opacity, transform, overflow, border+outline, table cell).
+// (position, float, display, z-index, opacity, transform, overflow, border+outline, table cell),
+// preceded by two small families: many tied siblings of one context, and nested dispatch (one kind
+// per branch of the dispatch closure of stacking.go on the arrangements with two and more levels of
+// nesting: positioned boxes inside nested fake contexts with earlier items in the real context).
 // Every document is rendered by the real pipeline onto the recording backend; the sequence of
 // fill colours (Paint) and texts (DrawText) is compared with a CSS 2.1 Appendix E reference
 // painter that works on the element tree and the computed styles only (ref.go).
@@ -80,6 +83,27 @@ func shapes(n, maxDepth int) [][]int {
 	return out
 }
 
+// deeper returns the shapes of l whose nesting depth is at least minDepth.
+func deeper(l [][]int, minDepth int) [][]int {
+	var out [][]int
+	for _, p := range l {
+		max := 0
+		for i := range p {
+			d := 0
+			for a := p[i]; a >= 0; a = p[a] {
+				d++
+			}
+			if d > max {
+				max = d
+			}
+		}
+		if max >= minDepth {
+			out = append(out, p)
+		}
+	}
+	return out
+}
+
 func shapeString(p []int) string {
 	var sb strings.Builder
 	var w func(i int)
@@ -120,9 +144,15 @@ func kindsOf(names ...string) []kind {
 var (
 	core16 = []string{"static", "rel", "abs", "float", "iblock", "inline", "cell", "opacity", "transform", "overflow", "outline",
 		"rel+z-1", "rel+z0", "rel+z1", "rel+z2", "abs+z1"}
-	small8 = []string{"static", "rel", "float", "iblock", "opacity", "rel+z-1", "rel+z0", "rel+z1"}
-	mid12  = []string{"static", "rel", "abs", "float", "iblock", "inline", "opacity", "overflow", "rel+z-1", "rel+z0", "rel+z1", "rel+z2"}
-	mid32  = []string{"static", "rel", "abs", "float", "iblock", "inline", "cell", "z-2", "z-1", "z0", "z1", "z2", "opacity", "transform", "overflow", "outline",
+	// one kind per branch of the dispatch closure of NewStackingContextFromBox: plain block (hoisting passes
+	// through), positioned z-index:auto (in flow / through the AbsolutePlaceholder alias), float, inline-block
+	// (the three "fake" contexts that hand the list of the enclosing real context down), and the two ways of being
+	// a real context at level 0 (so that every item ties with every other: the order is tree order alone)
+	branch7 = []string{"static", "rel", "abs", "float", "iblock", "opacity", "rel+z0"}
+	chain5  = []string{"static", "rel", "float", "iblock", "opacity"}
+	small8  = []string{"static", "rel", "float", "iblock", "opacity", "rel+z-1", "rel+z0", "rel+z1"}
+	mid12   = []string{"static", "rel", "abs", "float", "iblock", "inline", "opacity", "overflow", "rel+z-1", "rel+z0", "rel+z1", "rel+z2"}
+	mid32   = []string{"static", "rel", "abs", "float", "iblock", "inline", "cell", "z-2", "z-1", "z0", "z1", "z2", "opacity", "transform", "overflow", "outline",
 		"rel+z-2", "rel+z-1", "rel+z0", "rel+z1", "rel+z2", "abs+z-1", "abs+z0", "abs+z1",
 		"rel+float", "z1+opacity", "rel+opacity", "rel+overflow", "float+overflow", "iblock+opacity", "inline+opacity", "rel+inline"}
 )
@@ -159,6 +189,17 @@ func (c *check) build(tier string) {
 		}
 		c.subs = append(c.subs, s)
 	}
+	// Small families first: a run cut by its deadline loses the tail of the order, never these.
+	// (1) many-siblings family: ties among ≥ 13 child contexts of one sign in one context
+	ms := manyCases()
+	c.subs = append(c.subs, &sub{name: "many siblings: n ∈ {13,14,16,20,33} positioned siblings of one stacking context × z-index patterns with ties × {absolute, relative} × {children of the root context, children of a positioned z-index:0 box}", many: ms, size: int64(len(ms))})
+	// (2) nested-dispatch family: the kinds that take one branch each of the dispatch closure, on every
+	// arrangement of 3 boxes and on every arrangement of 4 boxes with two or three levels of nesting: a
+	// positioned / context-forming box inside one or two nested fake contexts (positioned z-index:auto, float,
+	// inline-block) or plain boxes, with and without earlier and later items in the same real stacking context
+	b7 := kindsOf(branch7...)
+	add("nested dispatch: 3 boxes, 7 dispatch-branch kinds", shapes(3, 2), rep(b7, 3))
+	add("nested dispatch: 4 boxes, two or three levels of nesting, 7 dispatch-branch kinds", deeper(shapes(4, 3), 2), rep(b7, 4))
 	add("2 boxes, every kind (≤ 2 deviations per box)", shapes(2, 1), rep(all, 2))
 	if tier == "thorough" {
 		m32, c16k := kindsOf(mid32...), kindsOf(core16...)
@@ -170,13 +211,11 @@ func (c *check) build(tier string) {
 			add(fmt.Sprintf("3 boxes, box %c any of the other %d kinds, the others 16 core kinds", 'A'+j, len(rest)), shapes(3, 2), l)
 		}
 		add("4 boxes, 12 kinds", shapes(4, 3), rep(kindsOf(mid12...), 4))
+		add("nested dispatch: 5 boxes, two to four levels of nesting, 5 kinds", deeper(shapes(5, 4), 2), rep(kindsOf(chain5...), 5))
 	} else {
 		add("3 boxes, 16 core kinds", shapes(3, 2), rep(kindsOf(core16...), 3))
 		add("4 boxes, 8 kinds, one level of nesting", shapes(4, 1), rep(kindsOf(small8...), 4))
 	}
-	// many-siblings family (both tiers): ties among ≥ 13 child contexts of one sign in one context
-	ms := manyCases()
-	c.subs = append(c.subs, &sub{name: "many siblings: n ∈ {13,14,16,20,33} positioned siblings of one stacking context × z-index patterns with ties × {absolute, relative} × {children of the root context, children of a positioned z-index:0 box}", many: ms, size: int64(len(ms))})
 	c.units = 0
 	for _, s := range c.subs {
 		s.start = c.units
@@ -216,7 +255,7 @@ func (c *check) Init(tier string, seed int64) engine.Space {
 	}
 	return engine.Space{
 		Units: c.units, Chunk: 48, Level: "model_checking", CaseCPUs: 8,
-		Rule: "(family many-siblings: every listed sibling count × z-index pattern × positioning × nesting; expected order = stable sort by z-index, tree order among ties) + deviation-bounded product: every arrangement (pre-order forest of 2–4 boxes under body) × every assignment of a kind (set of ≤ 2 deviations from the menu) to every box, kinds listed simplest first; arrangements with an in-flow block-level child of a display:inline box are outside the alphabet and skipped (counted); a case is non-trivial when the Appendix E order differs from document order; transitions = edges of the deviation lattice (deviations present in the case)",
+		Rule: "sub-spaces in the listed order, the small families first (a run cut by its deadline loses the tail of the order): (family many-siblings: every listed sibling count × z-index pattern × positioning × nesting; expected order = stable sort by z-index, tree order among ties) + (family nested dispatch: one kind per branch of the dispatch closure of NewStackingContextFromBox on every arrangement of 3 boxes and every arrangement of 4 (thorough: 5) boxes with ≥ 2 levels of nesting: positioned and context-forming boxes inside nested fake contexts, with earlier and later items of the same real stacking context, every item at level 0) + deviation-bounded product: every arrangement (pre-order forest of 2–4 boxes under body) × every assignment of a kind (set of ≤ 2 deviations from the menu) to every box, kinds listed simplest first; arrangements with an in-flow block-level child of a display:inline box are outside the alphabet and skipped (counted); a case is non-trivial when the Appendix E order differs from document order; transitions = edges of the deviation lattice (deviations present in the case)",
 		Bounds: map[string]any{
 			"deviation_menu": devName[:], "deviation_css": devCSS[:], "sub_spaces": bs, "max_deviations_per_box": 2,
 		},
@@ -439,6 +478,14 @@ func (cs acase) features(m *model) []string {
 		}
 		if b.parent.id != 0 {
 			set["has:nesting"] = true
+		}
+		// an item of a stacking context (positioned box or child context) that sits inside one / several
+		// nested pseudo contexts (positioned z-index:auto, float, inline-block) of that context
+		if n := b.pseudoAncestors(); n >= 1 && (b.scLike || b.positioned) {
+			set["pseudo>item"] = true
+			if n >= 2 {
+				set["pseudo>pseudo>item"] = true
+			}
 		}
 	}
 	var out []string
